@@ -354,9 +354,13 @@ def run_shard(spec):
             {"name": "u", "type": ["null", "Big", "string"]},
             {"name": "m", "type": {"type": "map", "values": "Big"}},
             {"name": "d", "type": {"type": "bytes", "logicalType": "decimal", "precision": 9, "scale": 2}},
-            {"name": "f", "type": {"type": "fixed", "name": "F8", "size": 8}, "default": "\u0000\u0001\u0002\u0003\u0004\u0005\u0006\u00ff"}]})
+            {"name": "f", "type": {"type": "fixed", "name": "F8", "size": 8}, "default": "\u0000\u0001\u0002\u0003\u0004\u0005\u0006\u00ff"},
+            # unions with several named branches (what the reader's name-reporting options look at)
+            {"name": "u2", "type": ["null", "Big", "F8", {"type": "record", "name": "R1", "fields": [{"name": "x", "type": "int"}]}, "string"], "default": None},
+            {"name": "u3", "type": {"type": "array", "items": ["R1", "Big"]}, "default": []}]})
 
-    fresh_datum = {"e": "S119", "u": "S118", "m": {"k": "S117", "j": "S3"}, "d": decimal.Decimal("1234567.89")}
+    fresh_datum = {"e": "S119", "u": "S118", "m": {"k": "S117", "j": "S3"}, "d": decimal.Decimal("1234567.89"),
+                   "u2": "S4", "u3": [{"x": 1}, "S9"]}
 
     def f_swrite(S):
         b = io.BytesIO()
@@ -371,6 +375,10 @@ def run_shard(spec):
         "jwrite": lambda S: (lambda o: (fa.json_writer(o, S, [fresh_datum]), o.getvalue())[1])(io.StringIO()),
         "cwrite": lambda S: (lambda o: (fa.writer(o, S, [fresh_datum, fresh_datum], sync_marker=b"\x07" * 16), o.getvalue())[1])(io.BytesIO()),
     }
+    for _nm, _kw in (("sread_named_override", {"return_named_type": True, "return_named_type_override": True}),
+                     ("sread_record_override", {"return_record_name": True, "return_record_name_override": True}),
+                     ("sread_named", {"return_named_type": True})):
+        fresh_ops[_nm] = (lambda kw: lambda S: fa.schemaless_reader(io.BytesIO(fresh_bytes), S, **kw))(_kw)
     # the fresh parsed schema used as a *reader* schema by both threads (data written by an older version)
     OLD = {"type": "record", "name": "Fresh", "namespace": "c18", "fields": [
         {"name": "e", "type": {"type": "enum", "name": "Big", "symbols": ["S%d" % i for i in range(120)]}},
@@ -399,12 +407,15 @@ def run_shard(spec):
         fseq[n], fnev[n] = res, cnt
     fnames = sorted(fresh_ops)
     # the two reader-side operations are short: every single-preemption schedule of one of them, in four shards
-    if spec["shard"] < 4:
-        a, b = [("resolve_sread", "resolve_sread"), ("resolve_sread", "resolve_cread"), ("resolve_cread", "resolve_sread"), ("resolve_cread", "resolve_cread")][spec["shard"]]
+    # ... and so are the reads with the name-reporting options (shards 4-7)
+    if spec["shard"] < 8:
+        a, b = [("resolve_sread", "resolve_sread"), ("resolve_sread", "resolve_cread"), ("resolve_cread", "resolve_sread"), ("resolve_cread", "resolve_cread"),
+                ("sread_named_override", "sread_named_override"), ("sread_named_override", "sread_record_override"),
+                ("sread_record_override", "sread_named_override"), ("sread_record_override", "sread_record_override")][spec["shard"]]
         for pnt in range(1, fnev[a] + 1):
             if sh.out_of_time() or sh.violations:
                 break
-            S2 = fresh_reader_schema()
+            S2 = fresh_reader_schema() if a in reader_side else fresh_schema()
             run = sched.Run([lambda: fresh_ops[a](S2), lambda: fresh_ops[b](S2)], sched.preempt_points({(0, pnt): 1}))
             try:
                 res = run.execute(first=0)
@@ -412,7 +423,7 @@ def run_shard(spec):
                 sh.count("deadlocked_runs_inconclusive")
                 continue
             sh.count("fresh_schema_schedules")
-            sh.count("fresh_reader_schema_schedules")
+            sh.count("fresh_reader_schema_schedules" if a in reader_side else "fresh_schema_option_read_schedules")
             sh.count("schedules_executed")
             sh.case(h64("fresh-reader", a, b, pnt), True)
             for x, r in zip((a, b), res):
